@@ -215,6 +215,78 @@ func TestC16(t *testing.T) {
 				}
 			}
 		}
+		// ---- membership history: nodes leave and join between creates (some were
+		// dialled before they left, some never); every placement uses exactly the
+		// members of the moment
+		hrng := rec.Rand("c16-history", N)
+		nextId := uint64(5000)
+		steps := rec.N(24, 120)
+		for step := 0; step < steps; step++ {
+			var ids []uint64
+			for id := range members {
+				if id != 1 {
+					ids = append(ids, id)
+				}
+			}
+			sort.Slice(ids, func(i, j int) bool { return ids[i] < ids[j] })
+			what := ""
+			switch {
+			case len(ids) > 0 && hrng.Intn(5) < 3:
+				id := ids[hrng.Intn(len(ids))]
+				dialled := hrng.Intn(2) == 0
+				if dialled {
+					conn.Dial(id) // non-blocking: caches a client connection for the node
+				}
+				conn.RemoveNode(id)
+				delete(members, id)
+				what = fmt.Sprintf("remove %d (dialled before: %v)", id, dialled)
+			default:
+				nextId += uint64(1 + hrng.Intn(9))
+				conn.AddNode(nextId, fmt.Sprintf("127.0.0.1:%d", 3000+step))
+				members[nextId] = true
+				what = fmt.Sprintf("add %d", nextId)
+			}
+			for _, R := range []int{1, 3, 8} {
+				P := []int{3, 16}[hrng.Intn(2)]
+				want := R
+				if len(members) < R {
+					want = len(members)
+				}
+				g.last = nil
+				_, err := dm.Create(context.Background(), &pb.Dataset{Dimension: 4, PartitionCount: uint32(P), ReplicationFactor: uint32(R)})
+				if err != errScripted || g.last == nil {
+					rec.Violation("create:unexpected-result", fmt.Sprintf("after %s: err=%v", what, err), nil)
+					break
+				}
+				pl, err := placement(g)
+				if err != nil || len(pl) != P {
+					rec.Violation("create:proposal-malformed", fmt.Sprintf("after %s: %v, %d partitions", what, err, len(pl)), nil)
+					break
+				}
+				var cur []uint64
+				for id := range members {
+					cur = append(cur, id)
+				}
+				sort.Slice(cur, func(i, j int) bool { return cur[i] < cur[j] })
+				info := map[string]interface{}{"initial_N": N, "step": step, "after": what, "members": cur, "R": R, "P": P, "placement": pl, "seed": rec.Seed()}
+				for i, ids := range pl {
+					seen := map[uint64]bool{}
+					for _, id := range ids {
+						if seen[id] {
+							rec.Violation("placement:duplicate-node:after-membership-change", fmt.Sprintf("after %s, members %v, R=%d: partition %d placed on %v", what, cur, R, i, ids), info)
+						}
+						if !members[id] {
+							rec.Violation("placement:non-member:after-membership-change", fmt.Sprintf("after %s, members %v, R=%d: partition %d placed on %v", what, cur, R, i, ids), info)
+						}
+						seen[id] = true
+					}
+					if len(ids) != want {
+						rec.Violation("placement:wrong-replica-count:after-membership-change", fmt.Sprintf("after %s, members %v, R=%d: partition %d has %d nodes, want %d", what, cur, R, i, len(ids), want), info)
+					}
+				}
+				rec.Count("creates_checked_after_membership_changes", 1)
+			}
+		}
 		alloc.Stop()
 	}
 }
